@@ -100,7 +100,7 @@ func vh_C20_htpasswd_reload() {
 }
 
 // Validate accepts exactly the matching password of a listed user
-// verif: unwind=6 strlen=12 also=C01
+// verif: unwind=6 strlen=12 also=C01 novalidate
 func vh_C01_basic_validate() {
 	user := ndString("user")
 	pw := ndString("password")
